@@ -337,6 +337,9 @@ func RunCheck(run *ev.Run, prop string, m Mode, nQuick, nThorough int, nullableH
 		if err := ev.LoadReplay(f, &c); err != nil {
 			run.HarnessError("canon %s: %v", f, err)
 		}
+		if c.G == nil {
+			continue // a replay file of another part of the check (handled by the caller)
+		}
 		run.Class("replay-tier")
 		one(&c)
 	}
